@@ -356,6 +356,20 @@ def _renumber_case(arg) -> Dict[str, Any]:
 
     seed, thorough = arg
     per_rank = gen.gen_trace_set(seed, n_ranks=1 + seed % 2, steps=2, n_top=2, n_streams=2, p_launch=0.8, p_memcpy=0.3, p_sync=0.2)
+    if seed % 2 == 0:
+        # five kernel names with EXACTLY equal totals (3 x 20 each), more names than the breakdown keeps (num_kernels=3): which of the tied
+        # names keep a row of their own must not depend on the numbering of the symbols
+        from hv import synth
+
+        evs = per_rank[0]
+        step = next(e for e in evs if str(e.get("name", "")).startswith("ProfilerStep"))
+        corr = 900_000
+        for k, nm in enumerate(["void tie_kernel_c", "void tie_kernel_a", "void tie_kernel_e", "void tie_kernel_b", "void tie_kernel_d"]):
+            for j in range(3):
+                corr += 1
+                t0 = step["ts"] + 1 + 2 * (3 * k + j)
+                evs.append(synth.launch(t0, 1, corr, tid=99))
+                evs.append(synth.kernel(nm, t0 + 1, 20, 21 + (k + j) % 2, corr))
     fails: List[Dict[str, Any]] = []
     n = 0
     with rt.trace_dir(per_rank) as d:
